@@ -6,7 +6,7 @@ Request   <op>|<arg>|…|<impl>|<tol>      answer: `agree` or `DISAGREE <model v
          `T`/`F` flags as 1/0) or `err <ErrorName>`
   tol    rational t: two numbers agree when |a - b| ≤ t · max(1, |a|, |b|); errors must agree exactly
   arg    rationals `p/q`; vectors / matrices comma separated; an OCS is `<T|F>,<16 numbers>`; lists `;` separated
-ops      ot (OCSTransform methods)  ext (transform_extrusion)  line  circle  arc  lw  solid  ins  imat  nest  up  temp  hatch  text  mtext  rytz  minor  mline  dim  pl2d  ell  elledge  mins
+ops      ot (OCSTransform methods)  ext (transform_extrusion)  line  circle  arc  lw  solid  ins  imat  nest  up  temp  hatch  text  mtext  rytz  minor  mline  dim  pl2d  ell  elledge  mins  trans  imatgen
 Square roots are supplied by `sqrtA` (relative error < 2⁻¹⁰⁰; the theorems quantify over exact roots); directions are
 normalised with it before they are compared with (cos, sin) of the angle the real code stores.
 -/
@@ -299,6 +299,31 @@ def model (op : String) (a : List String) : Option Out :=
       let r := minsertSpacing ⟨⟨0, 0, 0⟩, sx, sy, sz, ⟨1, 0⟩⟩ ⟨⟨0, 0, 0⟩, sx', sy', sz', ⟨1, 0⟩⟩ (← parseRat cs) (← parseRat rs)
       some (.ok [some [r.1], some [r.2]])
     | _, _ => none
+  | "trans", [cls, ocs, ps, d] => do
+    let o ← parseOcs ocs
+    let l ← parseList parseV3 ps
+    match ← parseRats d, cls, l with
+    | [dx, dy, dz], "Circle", [p] => some (.ok [some (v3l (TransformKernels.translateCircle o.t o.m p dx dy dz))])
+    | [dx, dy, dz], "Insert", [p] => some (.ok [some (v3l (TransformKernels.translateInsert o.t o.m p dx dy dz))])
+    | [dx, dy, dz], "Text", [p, q] =>
+      let r := TransformKernels.translateText o.t o.m p q dx dy dz
+      some (.ok [some (v3l r.1), some (v3l r.2)])
+    | [dx, dy, dz], "Ellipse", [p] => some (.ok [some (v3l (TransformKernels.translateEllipse p dx dy dz))])
+    | [dx, dy, dz], "Point", [p] => some (.ok [some (v3l (TransformKernels.translatePoint p dx dy dz))])
+    | [dx, dy, dz], "XLine", [p] => some (.ok [some (v3l (TransformKernels.translateXLine p dx dy dz))])
+    | [dx, dy, dz], "Line", [p, q] =>
+      let r := TransformKernels.translateLine p q dx dy dz
+      some (.ok [some (v3l r.1), some (v3l r.2)])
+    | _, _, _ => none
+  | "imatgen", [ocs, p, sc, rot, base] => do
+    let o ← parseOcs ocs
+    let d ← parseV2 rot
+    match ← parseRats sc with
+    | [sx, sy, sz] =>
+      match TransformKernels.insertMatrixGenS sqrtA o.t o.m sx sy sz (← parseV3 p) (← parseV3 base) d.x d.y with
+      | .ok mm => some (.ok [some mm.toList])
+      | .error e => some (.err (perr e))
+    | _ => none
   | "temp", [ms] => do
     -- history of `transform` calls on one ACIS entity: the pending matrix (absent for an empty history)
     match tempRun none (← parseList parseM ms) with
